@@ -192,7 +192,11 @@ func RunScanParallel(fsys FileSystem, files []string, scanner SignatureScanner, 
 	g, ctx := errgroup.WithContext(context.Background())
 	g.SetLimit(runtime.GOMAXPROCS(0))
 
-	for _, file := range files {
+	// One slot per input file: workers finish in any order, the report must not.
+	perFile := make([][]detection.ScanResult, len(files))
+
+	for i, file := range files {
+		idx := i
 		f := file
 		g.Go(func() error {
 			// Panic recovery for robust scanning
@@ -242,7 +246,7 @@ func RunScanParallel(fsys FileSystem, files []string, scanner SignatureScanner, 
 			}
 
 			mu.Lock()
-			allAlerts = append(allAlerts, localAlerts...)
+			perFile[idx] = localAlerts
 			totalFunctions += localCount
 			mu.Unlock()
 			return nil
@@ -251,6 +255,10 @@ func RunScanParallel(fsys FileSystem, files []string, scanner SignatureScanner, 
 
 	if err := g.Wait(); err != nil {
 		return nil, 0, err
+	}
+
+	for _, alerts := range perFile {
+		allAlerts = append(allAlerts, alerts...)
 	}
 
 	return allAlerts, totalFunctions, nil
